@@ -200,7 +200,14 @@ TraceInit ==
     /\ acc = FullAcc(StartPos)
     /\ views = FullViews(StartBoard)
 
-TraceNext == TraceLoad \/ TraceMake \/ TraceNull \/ TraceUndo \/ TraceUndoNull
+\* an operation of the engine panicked (the walk ends there)
+TracePanic ==
+    /\ IsEvent("panic")
+    /\ Viol(FALSE, "C02", "operation-panicked", [during |-> Rec[l].during, fen |-> Rec[l].fen, mv |-> Rec[l].mv,
+                                                  history_length |-> Rec[l].hl, msg |-> Rec[l].msg])
+    /\ UNCHANGED <<pos, stack, key, acc, views>>
+
+TraceNext == TraceLoad \/ TraceMake \/ TraceNull \/ TraceUndo \/ TraceUndoNull \/ TracePanic
 
 TraceSpec == TraceInit /\ [][TraceNext]_tvars
 
